@@ -477,8 +477,120 @@ func c08MainModule() *c08Module {
 		m.add(fmt.Sprintf("t/n%02d", i+4), "odd-base-name + ffi + decor", append([]string{o, c08FfiShort[c08FfiKeys[1+i]]}, m.decor(i+1)...))
 	}
 	m.add("t/n08", "odd-base-name all, repeated", odd, []string{odd[1], odd[0]})
+	// order-sensitive characters: sibling import paths that share a prefix and continue with '/', '-', '.', '_', a
+	// digit, an upper-case and a lower-case letter. The Require lines must be in sorted order of what is PRINTED
+	// ('-' and '.' become '_', '/' becomes '.'), which is not the order of the Go paths. Paths that would map to
+	// the same logical path (a-b / a.b / a_b) are not generated: the statement does not say what two packages
+	// with one logical path should give.
+	ordA := []string{"ord/order/items", "ord/order-log", "ord/order.v2", "ord/order_x", "ord/order9", "ord/orderZ", "ord/orderq"}
+	ordB := []string{"ord/store.v2/idx", "ord/store/index", "ord/store_a/idx", "ord/store9/idx", "ord/storeZ/idx", "ord/stores/idx"}
+	ordT := []string{"ord/trusted_q-r", "ord/trusted_q/r", "ord/trusted_q.s", "ord/trusted_q9", "ord/sub/trusted_q"}
+	for _, d := range append(append(append([]string{}, ordA...), ordB...), ordT...) {
+		m.add(d, "leaf-order-sibling")
+	}
+	on := 0
+	addOrd := func(shape string, imps []string) {
+		// the imports in 1-3 files, in different orders, some repeated across files
+		var files [][]string
+		rev := func(xs []string) []string {
+			o := make([]string, len(xs))
+			for i, x := range xs {
+				o[len(xs)-1-i] = m.local(x)
+			}
+			return o
+		}
+		fwd := rev(rev0(imps))
+		switch on % 4 {
+		case 0:
+			files = [][]string{fwd}
+		case 1:
+			files = [][]string{rev(imps)}
+		case 2:
+			files = [][]string{fwd[:1], rev(imps)}
+		default:
+			files = [][]string{rev(imps)[:1], fwd, rev(imps)}
+		}
+		m.add(fmt.Sprintf("ord/t/o%03d", on), shape, m.splitClashes(files)...)
+		on++
+	}
+	for _, grp := range [][]string{ordA, ordB} {
+		for i := 0; i < len(grp); i++ {
+			for j := i + 1; j < len(grp); j++ {
+				addOrd(fmt.Sprintf("order-pair %s | %s", path.Base(path.Dir(grp[i]))+"/"+path.Base(grp[i]), path.Base(path.Dir(grp[j]))+"/"+path.Base(grp[j])), []string{grp[i], grp[j]})
+			}
+		}
+		addOrd("order-group all siblings", grp)
+		addOrd("order-group all siblings", grp)
+		addOrd("order-group all siblings", grp)
+	}
+	for i, t := range ordT {
+		addOrd("order-trusted-mix", []string{t, ordA[i%len(ordA)], ordT[(i+1)%len(ordT)], ordB[i%len(ordB)]})
+	}
+	addOrd("order-trusted-mix all", append(append(append([]string{}, ordT...), ordA...), ordB...))
 	// odd INNER component only (must work): x.y is a directory, "in" the base
 	m.add("t/i00", "odd-inner-component", []string{m.local("odd/x.y/leaf"), m.local("in-ner/d.ot/plain")})
+	return m
+}
+
+func rev0(xs []string) []string {
+	o := make([]string, len(xs))
+	for i, x := range xs {
+		o[len(xs)-1-i] = x
+	}
+	return o
+}
+
+// c08ModulePathShapes: module paths of every shape a go.mod accepts. What a package's header must be does not
+// depend on how its module is named (the statement speaks of the package's transitive imports and of mapping
+// '.' and '-'), in particular not on whether the first element looks like a domain name.
+var c08ModulePathShapes = []string{
+	"kvstore",                  // one element, no dot
+	"corp/kvstore",             // no dot, two elements
+	"net2/x",                   // first element resembles a standard-library directory
+	"a9/internal/b-c",          // an `internal` element, a dash
+	"Corp-1/kv.store",          // upper case and dash in the first element, dot in a later one
+	"x.y",                      // one element with a dot
+	"deep/er/path/to/a/mod/v2", // deep, no dot anywhere
+	"go-tool.dev/X_y/v3.1",     // dots, dashes, upper case, underscore, digits
+	"trusted_corp/ts",          // the trusted_ prefix in an element that is not the last
+}
+
+// c08PathShapeModule crosses one module path with the FFI-reachability scenarios: every FFI (and none)
+// direct, behind one / two / three plain packages, a diamond, hidden behind the grove_ffi package, the same FFI
+// twice on different routes, two different FFIs (must be refused).
+func c08PathShapeModule(k int, modPath string) *c08Module {
+	hides := [][]string{{pMD}, {pPAD}, nil}[k%3]
+	m := &c08Module{Name: fmt.Sprintf("modpath%d", k), ModPath: modPath, GroveHides: hides}
+	tag := "modpath[" + modPath + "] "
+	m.add("lib/alpha", tag+"leaf")
+	m.add("lib/trusted_t1", tag+"leaf")
+	m.add("in-ner/d.ot/plain", tag+"leaf")
+	for _, f := range c08FfiKeys {
+		var imp0 []string
+		if f != "none" {
+			imp0 = []string{c08FfiShort[f]}
+		}
+		m.add("r/c1_"+f, tag+"direct "+f, imp0)
+		m.add("r/c2_"+f, tag+"via one plain package "+f, []string{m.local("r/c1_" + f)})
+		m.add("r/c3_"+f, tag+"via two plain packages "+f, []string{m.local("r/c2_" + f), m.local("lib/alpha")})
+		m.add("r/c4_"+f, tag+"via three plain packages "+f, []string{m.local("in-ner/d.ot/plain")}, []string{m.local("r/c3_" + f), m.local("lib/trusted_t1")})
+		m.add("r/dl_"+f, tag+"diamond-side "+f, []string{m.local("r/c1_" + f)})
+		m.add("r/dr_"+f, tag+"diamond-side "+f, []string{m.local("r/c2_" + f), m.local("lib/trusted_t1")})
+		m.add("r/dtop_"+f, tag+"diamond "+f, []string{m.local("r/dl_" + f)}, []string{m.local("r/dr_" + f), m.local("lib/alpha")})
+	}
+	// same FFI on two routes (translated), two different FFIs (refused)
+	m.add("two/same_disk", tag+"same FFI twice", []string{m.local("r/c2_md")}, []string{m.local("r/c3_pd")})
+	m.add("two/same_async", tag+"same FFI twice", []string{m.local("r/c3_mad"), m.local("r/c1_pad")})
+	m.add("two/none_and_disk", tag+"none + FFI", []string{m.local("r/c3_none"), m.local("r/c4_md")})
+	m.add("two/disk_async", tag+"two FFIs behind plain packages", []string{m.local("r/c2_md")}, []string{m.local("r/c2_mad")})
+	m.add("two/disk_grove", tag+"two FFIs behind plain packages", []string{m.local("r/c3_pd"), m.local("r/c2_grove")})
+	m.add("two/deep_async_grove", tag+"two FFIs behind plain packages", []string{m.local("r/c4_pad"), m.local("r/dtop_grove")})
+	m.add("two/direct_and_deep", tag+"two FFIs, one direct one behind plain packages", []string{pMD}, []string{m.local("r/c3_mad")})
+	for i, h := range hides {
+		// the FFI hidden behind grove_ffi reached openly too, behind plain packages
+		key := map[string]string{pMD: "md", pMAD: "mad", pPD: "pd", pPAD: "pad"}[h]
+		m.add(fmt.Sprintf("two/hidden_and_open%d", i), tag+"hidden FFI also reached openly behind plain packages", []string{m.local("r/c3_grove")}, []string{m.local("r/c2_" + key)})
+	}
 	return m
 }
 
@@ -1169,6 +1281,9 @@ func runC08(r *core.Run) (bool, string) {
 	for k, h := range hides {
 		mods = append(mods, c08HiddenModule(k, h))
 	}
+	for k, mp := range c08ModulePathShapes {
+		mods = append(mods, c08PathShapeModule(k, mp))
+	}
 	rng := core.NewRng(r.Seed, "c08-random")
 	nrand := r.Pick(1, 30)
 	for k := 0; k < nrand; k++ {
@@ -1176,7 +1291,7 @@ func runC08(r *core.Run) (bool, string) {
 	}
 	var errs []string
 	var emu sync.Mutex
-	core.Parallel(len(mods), 3, func(i int) {
+	core.Parallel(len(mods), 4, func(i int) {
 		if err := c.runModule(mods[i]); err != nil {
 			emu.Lock()
 			errs = append(errs, err.Error())
